@@ -219,6 +219,24 @@ func (w *Worktree) Checkout(opts *CheckoutOptions) error {
 		return err
 	}
 
+	// A checkout that is going to be refused because of unstaged changes
+	// must be refused before the branch is created and HEAD is moved.
+	if !opts.Force && !opts.Keep {
+		cfg, err := w.r.Config()
+		if err != nil {
+			return err
+		}
+
+		unstaged, err := w.containsUnstagedChanges(cfg)
+		if err != nil {
+			return err
+		}
+
+		if unstaged {
+			return ErrUnstagedChanges
+		}
+	}
+
 	if opts.Create {
 		if err := w.createBranch(opts); err != nil {
 			return err
@@ -234,6 +252,8 @@ func (w *Worktree) Checkout(opts *CheckoutOptions) error {
 		Commit:     c,
 		Mode:       MergeReset,
 		SparseDirs: opts.SparseCheckoutDirectories,
+		// already checked above
+		unstagedChecked: !opts.Force && !opts.Keep,
 	}
 	if opts.Force {
 		ro.Mode = HardReset
@@ -361,7 +381,7 @@ func (w *Worktree) Reset(opts *ResetOptions) error {
 		return err
 	}
 
-	if opts.Mode == MergeReset {
+	if opts.Mode == MergeReset && !opts.unstagedChecked {
 		unstaged, err := w.containsUnstagedChanges(cfg)
 		if err != nil {
 			return err
